@@ -16,10 +16,13 @@ warnings.filterwarnings("ignore")
 import z3
 from engine import common
 from engine.kit import mk_arr, ev, zx
-from engine.nbsym import Executor, State, Val, types, cast, mk_int, FPS, RM, Unsupported
+from engine.nbsym import Executor, State, Val, Store, FArrR, types, cast, mk_int, FPS, RM, Unsupported, interp_definition
 
 PID = "C17"
 _M = {}
+NK = 3     # knots of the symbolic (raw estimate, bias) table handed to the kernel: left of it / two segments / right of it
+RAW = z3.Array("raw_table", z3.IntSort(), z3.RealSort())
+BIAS = z3.Array("bias_table", z3.IntSort(), z3.RealSort())
 
 
 def H():
@@ -43,8 +46,11 @@ def harness(m):
     regs = mk_arr(st, "reg", types.uint8, (m,))
     rI = [z3.Int(f"reg{i}") for i in range(m)]
     st.heap[regs.sid] = tuple(z3.Int2BV(k, 8) for k in rI)
-    raw = mk_arr(st, "rawtab", types.uint64, (1,))
-    bias = mk_arr(st, "biastab", types.uint64, (1,))
+    # the shipped tables are kernel ARGUMENTS: symbolic tables of NK knots, raw estimates strictly increasing
+    sr, sb = Store(), Store()
+    st.heap[sr.id], st.heap[sb.id] = RAW, BIAS
+    raw, bias = FArrR(sr.id, NK), FArrR(sb.id, NK)
+    st.pc += [z3.Select(RAW, j) < z3.Select(RAW, j + 1) for j in range(NK - 1)]
     thrI = z3.Int("threshold")
     thr = z3.Int2BV(thrI, 64)
     alpha = z3.Real("alpha")
@@ -67,11 +73,11 @@ def reference(rI, m, thrI, alpha):
     for k in rI:
         total = total + Executor.POWR(z3.RealVal(2), -z3.ToReal(k))
     E = alpha * z3.RealVal(m * m) / total
-    Ec = E - Executor.INTERPR(E)
+    Ec = E - Executor.INTERPT(E, RAW, BIAS)
     fthr = z3.ToReal(thrI)
     f5m = z3.RealVal(5 * m)
     res = z3.If(V > 0, z3.If(LC > fthr, Ec, LC), z3.If(E <= f5m, Ec, E))
-    return res, dict(V=V, LC=LC, E=E, Ec=Ec, fthr=fthr, f5m=f5m, total=total)
+    return res, dict(V=V, LC=LC, E=E, Ec=Ec, fthr=fthr, f5m=f5m, total=total, interp_def=(Executor.INTERPT(E, RAW, BIAS) == interp_definition(E, RAW, BIAS, NK)))
 
 
 def ob_structure(m, timeout_ms):
@@ -84,7 +90,12 @@ def ob_structure(m, timeout_ms):
     assume = list(post.pc) + [p_ > 0 for p_ in pows]   # 2**x > 0
     goal = rv.t == ref
     wraps = [c for _k, c in post.oblig if _k != "float-div-by-zero"]
+    # first with np.interp as an uninterpreted function of (x, xp-table, fp-table): congruence alone decides code that
+    # hands the estimate and the two tables to np.interp; otherwise add np.interp's definition for every application
     r, mdl = common.z3check_race(assume + [z3.Or(z3.Not(goal), *wraps)], timeout_ms, stats, label=f"_query == reference decision tree, m={m}")
+    if r != "unsat":
+        assume = assume + list(ex.interp_axioms) + [parts["interp_def"]]
+        r, mdl = common.z3check_race(assume + [z3.Or(z3.Not(goal), *wraps)], timeout_ms, stats, label=f"_query == reference decision tree, m={m}, np.interp defined")
     if r == "unsat":
         # registers must not be modified
         r2, _ = common.z3check(assume + [z3.Or(*[x != y for x, y in zip(post.heap[regs.sid], cells)])], timeout_ms, stats, label="query leaves the registers alone")
@@ -95,7 +106,8 @@ def ob_structure(m, timeout_ms):
         return {"status": "unknown", "stats": stats.as_dict(), "funcs": funcs, "note": r}
     mi = lambda t: mdl.eval(t, model_completion=True)
     cex = {"kind": "hll-query", "m": m, "registers": [mi(k).as_long() for k in ex.rI], "threshold_model": str(mi(ex.thrI)),
-           "model_branch": {"zero_registers": str(mi(parts["V"])), "LC>thr": str(mi(parts["LC"] > parts["fthr"])), "E<=5m": str(mi(parts["E"] <= parts["f5m"]))}}
+           "model_branch": {"zero_registers": str(mi(parts["V"])), "LC>thr": str(mi(parts["LC"] > parts["fthr"])), "E<=5m": str(mi(parts["E"] <= parts["f5m"])),
+                            "E_vs_table": "below" if z3.is_true(mi(parts["E"] < z3.Select(RAW, 0))) else ("above" if z3.is_true(mi(parts["E"] > z3.Select(RAW, NK - 1))) else "inside")}}
     # the model's log/pow values are artefacts of the uninterpreted functions: search register arrays of the same shape class on the real code
     rp = replay(cex)
     return {"status": "cex", "stats": stats.as_dict(), "funcs": funcs, "cex": cex, "replay": rp, "finding_key": "hll-query-structure"}
@@ -264,8 +276,8 @@ def main():
         rc_extra = 2
     rc = common.finish(
         PID, tier, "model_checking", obs, results, t0=t0, funcs=funcs,
-        bounds={"register_arrays": f"m in {ms} cells (the kernel takes m as a parameter; the class only uses m >= 128), every cell symbolic in 0..64", "threshold": "0..2^62", "alpha": "any positive real"},
-        stubs=["np.log, float64 ** and np.interp -> uninterpreted functions over the reals (floats idealised as reals: the sum's association order is immaterial); 2**x > 0; log(1) = 0 for the empty-sketch obligation"],
+        bounds={"register_arrays": f"m in {ms} cells (the kernel takes m as a parameter; the class only uses m >= 128), every cell symbolic in 0..64", "threshold": "0..2^62", "alpha": "any positive real", "tables": f"symbolic (raw estimate, bias) tables of {NK} knots, raw estimates strictly increasing"},
+        stubs=["np.interp -> uninterpreted function of (x, xp-table, fp-table) with its definition (clamped piecewise-linear) instantiated per application when congruence does not suffice", "np.log, float64 ** -> uninterpreted functions over the reals (floats idealised as reals: the sum's association order is immaterial); 2**x > 0; log(1) = 0 for the empty-sketch obligation"],
         assumptions=["Numba lowering preserves typed-IR semantics", "HyperLogLog.__init__ passes row p-7 of the shipped tables and alpha = 0.7213/(1+1.079/m), and query() evaluates the current registers at every call: CrossHair conditions of checks/w_c17.py",
                      "a structural counterexample is reported only after a register array reproducing a numeric disagreement with the independent reference is found on the real sketch"],
         outside=["accuracy of np.log / np.interp / 2.0**x", "register files larger than the listed m (the loops are uniform)", "float rounding (real-idealised); the replay compares numerically with tolerance 1e-9"],
